@@ -838,10 +838,10 @@ Proof.
   intros D Hx Hsub h1 h2 x1 x2 k0 o1 c1 o2 c2 Hne H1 H2 W1 W2.
   apply lookup_insert_Some in H1 as [[<- <-]|[? H1]]; apply lookup_insert_Some in H2 as [[<- <-]|[? H2]]; try done.
   - destruct (Hsub _ _ _ W1) as [-> [[-> [Ha Hb]]|Hsole]].
-    + assert (o + c <= o2 \/ o2 + c2 <= o) as Hd by (eapply (D h h2); eauto). lia.
+    + assert (c = 0 \/ c2 = 0 \/ o + c <= o2 \/ o2 + c2 <= o) as Hd by (eapply (D h h2); eauto). lia.
     + exfalso. eapply (Hsole h2 x2); eauto. destruct x2 as [| ? ? ? ? []|]; simpl in W2; try done. by injection W2 as -> _ _.
   - destruct (Hsub _ _ _ W2) as [-> [[-> [Ha Hb]]|Hsole]].
-    + assert (o1 + c1 <= o \/ o + c <= o1) as Hd by (eapply (D h1 h); eauto). lia.
+    + assert (c1 = 0 \/ c = 0 \/ o1 + c1 <= o \/ o + c <= o1) as Hd by (eapply (D h1 h); eauto). lia.
     + exfalso. eapply (Hsole h1 x1); eauto. destruct x1 as [| ? ? ? ? []|]; simpl in W1; try done. by injection W1 as -> _ _.
   - eapply (D h1 h2); eauto.
 Qed.
@@ -974,13 +974,13 @@ Proof.
         apply lookup_insert_Some in H1 as [[<- <-]|[? H1]]; apply lookup_insert_Some in H2 as [[<- <-]|[? H2]]; try done.
         + apply lookup_insert_Some in H2 as [[<- <-]|[? H2]].
           * injection W1 as <- <- <-. injection W2 as <- <-. lia.
-          * injection W1 as <- <- <-. assert (ofs + cap <= o2 \/ o2 + c2 <= ofs) by (eapply (D h h2); eauto). lia.
+          * injection W1 as <- <- <-. assert (cap = 0 \/ c2 = 0 \/ ofs + cap <= o2 \/ o2 + c2 <= ofs) by (eapply (D h h2); eauto). lia.
         + apply lookup_insert_Some in H1 as [[<- <-]|[? H1]].
           * injection W1 as <- <- <-. injection W2 as <- <-. lia.
-          * injection W2 as <- <- <-. assert (o1 + c1 <= ofs \/ ofs + cap <= o1) by (eapply (D h1 h); eauto). lia.
+          * injection W2 as <- <- <-. assert (c1 = 0 \/ cap = 0 \/ o1 + c1 <= ofs \/ ofs + cap <= o1) by (eapply (D h1 h); eauto). lia.
         + apply lookup_insert_Some in H1 as [[<- <-]|[? H1]]; apply lookup_insert_Some in H2 as [[<- <-]|[? H2]]; try done.
-          * injection W1 as <- <- <-. assert (ofs + cap <= o2 \/ o2 + c2 <= ofs) by (eapply (D h h2); eauto). lia.
-          * injection W2 as <- <- <-. assert (o1 + c1 <= ofs \/ ofs + cap <= o1) by (eapply (D h1 h); eauto). lia.
+          * injection W1 as <- <- <-. assert (cap = 0 \/ c2 = 0 \/ ofs + cap <= o2 \/ o2 + c2 <= ofs) by (eapply (D h h2); eauto). lia.
+          * injection W2 as <- <- <-. assert (c1 = 0 \/ cap = 0 \/ o1 + c1 <= ofs \/ ofs + cap <= o1) by (eapply (D h1 h); eauto). lia.
           * eapply (D h1 h2); eauto. }
     intros [] s1 [Hfr L1]. apply spec_ret. done.
 Qed.
@@ -1318,4 +1318,423 @@ Proof.
   intros s [L Hf] (ko & ofs & len & vt & arc & Hx). simpl. sbind (spec_get_h' _ _ _ Hx). intros x s1 [-> ->].
   sbind (bytes_is_unique_spec _ _ _ _ _ _ _ _ L Hx). intros b s1 ->. destruct b; [|by apply spec_ret].
   sbind (bytes_into_mut_rep_lwf _ _ h (next_h s) _ _ _ _ _ L Hx (hfresh_next _ Hf)). intros v s1 Hpost. by eapply (wf_finish_conv s s1 h (next_h s)).
+Qed.
+
+(* ---- Vec::reserve had to grow: the only holder of k moves to a new buffer k' (which inherits the control block, if any) ---- *)
+(* the state after realloc_buf, described storage by storage *)
+Definition realloc_post (G : hmap) (s : hst) (h : hid) (k : positive) (st : storage) (need : N) (r : positive * N) (s1 : hst) : Prop :=
+  let '(k', c) := r in
+  sframe s s1 /\ need <= c /\ k' <> k /\ sts s !! k' = None /\ owners s1 = owners s /\
+  exists st', sts s1 !! k' = Some st' /\ s_live st' = true /\ s_size st' = c /\ s_cls st' = (if c =? 0 then SDangling else SHeap) /\ s_ctrl st' = s_ctrl st /\
+  (* any re-typing of the holder's handle onto k', with any control block of the right shape, re-establishes the invariant *)
+  forall c1 x', holds x' = Some k' -> typed (<[k' := with_ctrl c1 st']> (sts s1)) x' -> st_ok (owners s) k' (with_ctrl c1 st') 1 ->
+    (forall h2 y k0 o0 c0 o1 cc1, h2 <> h -> G !! h2 = Some y -> mwin y = Some (k0, o0, c0) -> mwin x' = Some (k0, o1, cc1) -> False) ->
+    LWF (<[h := x']> G) (set_sts (<[k' := with_ctrl c1 st']>) s1).
+Lemma realloc_buf_lwf G s h x k st orc oldcap keep need :
+  LWF G s -> G !! h = Some x -> holds x = Some k -> refs G k = 1%nat -> sts s !! k = Some st -> s_live st = true -> heapish (s_cls st) ->
+  oldcap = s_size st -> need <> 0 ->
+  spec (realloc_buf orc k oldcap keep need) s (realloc_post G s h k st need).
+Proof.
+  intros L Hx Hh Hn Hs Hl Hcl -> Hnz. destruct L as [T S D (F1 & F2 & F3 & F4)] eqn:EL.
+  assert (forall h2 y, h2 <> h -> G !! h2 = Some y -> holds y <> Some k) as Hsole by (intros; by eapply (refs_one_other G h)).
+  assert (s_cls st <> SStatic) as Hns by (destruct Hcl as [E|E]; rewrite E; done).
+  unfold realloc_buf. destruct (isize_max <? need) eqn:Ei; [apply spec_panic|].
+  set (newcap := N.max (or_pick orc need) need). assert (need <= newcap) as Hnc by (unfold newcap; lia). assert (newcap =? 0 = false) as Hc0 by lia.
+  sbind (spec_get_st' _ _ _ Hs). intros y s1 [-> ->]. sbind spec_mget'. intros y s1 [-> ->].
+  pose proof (S _ _ Hs) as Hok.
+  destruct Hcl as [Hcl|Hcl]; rewrite Hcl.
+  - (* a real buffer is reallocated *)
+    sbind spec_check'. { done. } intros [] s1 ->. sbind spec_check'. { lia. } intros [] s1 ->.
+    assert (sts s !! xO (next_real s) = None) as Hfr.
+    { destruct (sts s !! xO (next_real s)) eqn:E; [|done]. assert (next_real s < next_real s)%positive by (apply F1; eauto). lia. }
+    assert (xO (next_real s) <> k) as Hkk by (intros <-; congruence).
+    sbind spec_mput'. intros [] s1 ->. sbind spec_emit'. intros [] s1 ->. apply spec_ret.
+    unfold realloc_post. split; [done|]. split; [done|]. split; [done|]. split; [done|]. split; [done|].
+    eexists. split; [simpl; apply lookup_insert|]. cbn [s_live s_size s_cls s_ctrl]. rewrite Hc0. split; [done|]. split; [done|]. split; [done|]. split; [done|].
+    intros cnew xn Hh' Hty Hok' Hdis. unfold set_sts. cbn [sts hs owners next_real next_pseudo next_h next_o odd_mode]. rewrite insert_insert.
+    set (stn := with_ctrl cnew _). set (k' := xO (next_real s)) in *.
+    constructor; cbn [sts owners].
+    + intros h' y Hy. apply lookup_insert_Some in Hy as [[<- <-]|[Hne Hy]].
+      * cbn [sts] in Hty. by rewrite insert_insert in Hty.
+      * apply typed_ins_fresh; [by rewrite lookup_insert_ne|]. eapply typed_upd_nothold; [exact Hs|done|eapply Hsole; eauto|by eapply T].
+    + intros k2 st2 Hk2. destruct (decide (k2 = k')) as [->|Hn1].
+      * rewrite lookup_insert in Hk2. injection Hk2 as <-.
+        assert (refs (<[h := xn]> G) k' = 1%nat) as ->; [|exact Hok'].
+        pose proof (refs_insert G h x xn k' Hx) as HH. rewrite (w_hold xn k' Hh') in HH. rewrite (w_nohold x k') in HH by congruence.
+        rewrite (refs_fresh_storage _ _ _ L Hfr) in HH. lia.
+      * rewrite lookup_insert_ne in Hk2 by done. destruct (decide (k2 = k)) as [->|Hn2].
+        -- rewrite lookup_insert in Hk2. injection Hk2 as <-.
+           assert (refs (<[h := xn]> G) k = 0%nat) as ->.
+           { pose proof (refs_insert G h x xn k Hx) as HH. rewrite (w_hold x k Hh) in HH. rewrite (w_nohold xn k) in HH by congruence. lia. }
+           unfold st_ok in *. simpl. rewrite Hcl in *. split; [apply Hok|done].
+        -- rewrite lookup_insert_ne in Hk2 by done.
+           assert (refs (<[h := xn]> G) k2 = refs G k2) as ->; [|by apply S].
+           pose proof (refs_insert G h x xn k2 Hx) as HH. rewrite (w_nohold xn k2) in HH by congruence. rewrite (w_nohold x k2) in HH by congruence. lia.
+    + intros h1 h2 x1 x2 k0 o1 cc1 o2 c2 Hn12 H1 H2 W1 W2.
+      apply lookup_insert_Some in H1 as [[<- <-]|[? H1]]; apply lookup_insert_Some in H2 as [[<- <-]|[? H2]]; try done.
+      * exfalso. eapply (Hdis h2 x2); eauto.
+      * exfalso. eapply (Hdis h1 x1); eauto.
+      * eapply (D h1 h2); eauto.
+    + repeat split; simpl.
+      * intros p [st0 Hp]. destruct (decide (p = next_real s)) as [->|Hne]; [lia|]. rewrite lookup_insert_ne in Hp by (unfold k'; congruence).
+        assert (is_Some (sts s !! xO p)) as Hi. { destruct (decide (xO p = k)) as [<-|?]; [eauto|]. rewrite lookup_insert_ne in Hp by done. eauto. }
+        assert (p < next_real s)%positive by (by apply F1). lia.
+      * intros p [st0 Hp]. rewrite lookup_insert_ne in Hp by done. apply F2. destruct (decide (xI p = k)) as [<-|?]; [eauto|]. rewrite lookup_insert_ne in Hp by done. eauto.
+      * done.
+      * rewrite lookup_insert_ne by done. destruct (decide (1%positive = k)) as [<-|?]; [congruence|]. by rewrite lookup_insert_ne.
+  - (* a zero-capacity Vec: first allocation *)
+    assert (sts s !! xO (next_real s) = None) as Hfr.
+    { destruct (sts s !! xO (next_real s)) eqn:E; [|done]. assert (next_real s < next_real s)%positive by (apply F1; eauto). lia. }
+    assert (xO (next_real s) <> k) as Hkk by (intros <-; congruence).
+    set (k' := xO (next_real s)) in *.
+    set (stn0 := {| s_size := newcap; s_data := pad [] newcap; s_live := true; s_odd := odd_mode s; s_cls := SHeap; s_ctrl := CNone |}).
+    eapply spec_bind with (Q1 := fun r s1 => r = k' /\ s1 = {| sts := <[k' := stn0]> (sts s); hs := hs s; owners := owners s; next_real := Pos.succ (next_real s);
+                                   next_pseudo := next_pseudo s; next_h := next_h s; next_o := next_o s; odd_mode := odd_mode s |}).
+    { unfold alloc_buf. sbind spec_mget'. intros y s1 [-> ->]. rewrite Hc0. destruct (isize_max <? newcap); [apply spec_panic|].
+      sbind spec_mput'. intros [] s1 ->. sbind spec_emit'. intros [] s1 ->. by apply spec_ret. }
+    intros r s1 [-> ->].
+    eapply spec_bind; [unfold upd_st; eapply spec_bind; [eapply spec_get_st'; simpl; apply lookup_insert|]; intros y s1 [-> ->]; apply spec_put_st'|]. intros [] s1 ->.
+    sbind spec_put_st'. intros [] s1 ->. apply spec_ret.
+    unfold realloc_post, set_sts. cbn [sts hs owners next_real next_pseudo next_h next_o odd_mode]. rewrite insert_insert.
+    split; [done|]. split; [done|]. split; [done|]. split; [done|]. split; [done|].
+    exists (with_ctrl (s_ctrl st) stn0). split; [rewrite lookup_insert_ne by done; apply lookup_insert|].
+    cbn [with_ctrl s_live s_size s_cls s_ctrl stn0]. rewrite Hc0. split; [done|]. split; [done|]. split; [done|]. split; [done|].
+    intros cnew xn Hh' Hty Hok' Hdis. rewrite (insert_commute _ k k') by done. rewrite insert_insert.
+    unfold st_ok in Hok. rewrite Hcl in Hok. destruct Hok as (Hz & _ & Hctl).
+    constructor; cbn [sts owners].
+    + intros h' y Hy. apply lookup_insert_Some in Hy as [[<- <-]|[Hne Hy]].
+      * cbn [sts] in Hty. rewrite (insert_commute _ k k') in Hty by done. by rewrite insert_insert in Hty.
+      * apply typed_ins_fresh; [by rewrite lookup_insert_ne|]. eapply typed_upd_nothold; [exact Hs|done|eapply Hsole; eauto|by eapply T].
+    + intros k2 st2 Hk2. destruct (decide (k2 = k')) as [->|Hn1].
+      * rewrite lookup_insert in Hk2. injection Hk2 as <-.
+        assert (refs (<[h := xn]> G) k' = 1%nat) as ->; [|exact Hok'].
+        pose proof (refs_insert G h x xn k' Hx) as HH. rewrite (w_hold xn k' Hh') in HH. rewrite (w_nohold x k') in HH by congruence.
+        rewrite (refs_fresh_storage _ _ _ L Hfr) in HH. lia.
+      * rewrite lookup_insert_ne in Hk2 by done. destruct (decide (k2 = k)) as [->|Hn2].
+        -- rewrite lookup_insert in Hk2. injection Hk2 as <-.
+           assert (refs (<[h := xn]> G) k = 0%nat) as ->.
+           { pose proof (refs_insert G h x xn k Hx) as HH. rewrite (w_hold x k Hh) in HH. rewrite (w_nohold xn k) in HH by congruence. lia. }
+           unfold st_ok. simpl. rewrite Hcl, Hl. repeat split; try done; lia.
+        -- rewrite lookup_insert_ne in Hk2 by done.
+           assert (refs (<[h := xn]> G) k2 = refs G k2) as ->; [|by apply S].
+           pose proof (refs_insert G h x xn k2 Hx) as HH. rewrite (w_nohold xn k2) in HH by congruence. rewrite (w_nohold x k2) in HH by congruence. lia.
+    + intros h1 h2 x1 x2 k0 o1 cc1 o2 c2 Hn12 H1 H2 W1 W2.
+      apply lookup_insert_Some in H1 as [[<- <-]|[? H1]]; apply lookup_insert_Some in H2 as [[<- <-]|[? H2]]; try done.
+      * exfalso. eapply (Hdis h2 x2); eauto.
+      * exfalso. eapply (Hdis h1 x1); eauto.
+      * eapply (D h1 h2); eauto.
+    + repeat split; simpl.
+      * intros p [st0 Hp]. destruct (decide (p = next_real s)) as [->|Hne]; [lia|]. rewrite lookup_insert_ne in Hp by (unfold k'; congruence).
+        assert (is_Some (sts s !! xO p)) as Hi. { destruct (decide (xO p = k)) as [<-|?]; [eauto|]. rewrite lookup_insert_ne in Hp by done. eauto. }
+        assert (p < next_real s)%positive by (by apply F1). lia.
+      * intros p [st0 Hp]. rewrite lookup_insert_ne in Hp by done. apply F2. destruct (decide (xI p = k)) as [<-|?]; [eauto|]. rewrite lookup_insert_ne in Hp by done. eauto.
+      * done.
+      * rewrite lookup_insert_ne by done. destruct (decide (1%positive = k)) as [<-|?]; [congruence|]. by rewrite lookup_insert_ne.
+Qed.
+
+Lemma with_ctrl_id st c : s_ctrl st = c -> with_ctrl c st = st.
+Proof. intros <-. by destruct st. Qed.
+Lemma mread_len_spec s k ofs len st : sts s !! k = Some st -> s_live st = true -> ofs + len <= s_size st ->
+  spec (mread k ofs len) s (fun bs s1 => s1 = s /\ lenN bs <= len).
+Proof.
+  intros Hs Hl Hb e. pose proof (mread_spec s k ofs len st Hs Hl Hb e) as H. pose proof (mread_ok k ofs len s e) as H2.
+  destruct (mread k ofs len s e) as [bs s1 e1| |] eqn:E; try done. split; [done|].
+  destruct (len =? 0) eqn:E0.
+  - unfold mread in E. rewrite E0 in E. injection E as <- _ _. change (lenN (@nil byte)) with 0. lia.
+  - destruct (H2 bs s1 e1 eq_refl) as (x & Hx & _ & _ & -> & _); [lia|]. apply lenN_rd.
+Qed.
+(* a sole shared BytesMut may take any window of its buffer *)
+Lemma lwf_hm_sole_window G s h k o l c st o' l' c' : LWF G s -> G !! h = Some (HM k o l c MArc) -> refs G k = 1%nat -> sts s !! k = Some st ->
+  o' + c' <= s_size st -> l' <= c' -> LWF (<[h := HM k o' l' c' MArc]> G) s.
+Proof.
+  intros L Hx Hn Hs Hb Hl. eapply lwf_step0; [exact L| | |].
+  - intros h' y Hy. apply lookup_insert_Some in Hy as [[<- <-]|[? Hy]]; [|by eapply (lwf_typed _ _ L)].
+    pose proof (lwf_typed _ _ L _ _ Hx) as (st0 & Hs0 & Hlv & Hcl & Hc & Hbd & Hle). rewrite Hs in Hs0. injection Hs0 as <-. exists st. repeat split; done.
+  - intros k2. by eapply refs_insert_same.
+  - eapply disj_replace_sub; [apply (lwf_disj _ _ L)|exact Hx|]. intros k' o2 c2 [= <- <- <-]. split; [done|]. right.
+    intros h2 y Hne Hy. by eapply (refs_one_other G h).
+Qed.
+
+Lemma spec_and {A} (m : M A) s (Q1 Q2 : A -> hst -> Prop) : spec m s Q1 -> spec m s Q2 -> spec m s (fun a s1 => Q1 a s1 /\ Q2 a s1).
+Proof. intros H1 H2 e. specialize (H1 e). specialize (H2 e). destruct (m s e); done. Qed.
+Lemma mwrite_size s k ofs bs st : sts s !! k = Some st -> s_live st = true -> heapish (s_cls st) -> ofs + lenN bs <= s_size st -> (s_cls st = SDangling -> s_size st = 0) ->
+  spec (mwrite k ofs bs) s (fun _ s1 => exists st1, sts s1 !! k = Some st1 /\ s_size st1 = s_size st).
+Proof.
+  intros Hs Hl Hcl Hb Hd. unfold mwrite. destruct (lenN bs =? 0) eqn:Ez; [apply spec_ret; eauto|].
+  sbind (spec_get_st' _ _ _ Hs). intros x s1 [-> ->]. sbind spec_check'. { done. } intros [] s1 ->. sbind spec_check'. { lia. } intros [] s1 ->.
+  assert (s_cls st = SHeap) as Hh. { destruct Hcl as [?|Hd']; [done|]. specialize (Hd Hd'). lia. }
+  sbind spec_check'. { by rewrite Hh. } intros [] s1 ->. apply spec_put_st. simpl. eexists. rewrite lookup_insert. done.
+Qed.
+(* moving the live bytes to the front of the buffer: the invariant and the buffer's size survive *)
+Lemma move_front_lwf G s k off len st : LWF G s -> sts s !! k = Some st -> s_live st = true -> heapish (s_cls st) -> off + len <= s_size st ->
+  spec (if len =? 0 then mret tt else let! bs := mread k off len in mwrite k 0 bs) s (fun _ s1 => sframe s s1 /\ LWF G s1 /\ exists st1, sts s1 !! k = Some st1 /\ s_size st1 = s_size st).
+Proof.
+  intros L Hs Hlv Hcl Hb. destruct (len =? 0); [apply spec_ret; split; [done|split; [done|eauto]]|].
+  sbind (mread_len_spec s k off len st Hs Hlv Hb). intros bs s1 [-> Hbs].
+  pose proof (lwf_st _ _ L _ _ Hs) as Hok.
+  eapply spec_mono; [apply spec_and; [eapply (mwrite_lwf G s k 0 bs st L Hs Hlv Hcl); lia|eapply (mwrite_size s k 0 bs st Hs Hlv Hcl); [lia|]]|].
+  - intros Hd. unfold st_ok in Hok. rewrite Hd in Hok. apply Hok.
+  - intros [] s1 [[Hfr L1] Hst]. done.
+Qed.
+Definition is_hm (x : handle) : Prop := exists k o l c kd, x = HM k o l c kd.
+Lemma reserve_inner_lwf G s h orc additional allocate k off len cap kd :
+  LWF G s -> G !! h = Some (HM k off len cap kd) ->
+  spec (reserve_inner orc additional allocate (HM k off len cap kd)) s (fun r s1 => sframe s s1 /\ LWF (<[h := r.1]> G) s1 /\ is_hm r.1).
+Proof.
+  intros L Hx. pose proof (lwf_typed _ _ L _ _ Hx) as Hty. unfold reserve_inner. destruct kd as [o|]; simpl in Hty.
+  - destruct Hty as (st & Hs & Hlv & Hcl & Hc & Hcap & Hle).
+    destruct ((additional <=? cap - len + off) && (len <=? off)) eqn:E1.
+    + sbind (move_front_lwf G s k off len st L Hs Hlv Hcl). { lia. }
+      intros [] s1 (Hfr & L1 & _). apply spec_ret. split; [done|]. split; [|unfold is_hm; eauto 10]. simpl. eapply lwf_hm_vecmove; [done|exact Hx|lia|lia].
+    + destruct allocate; cbn [negb]; [|apply spec_ret; split; [done|]; split; [by rewrite insert_id|unfold is_hm; eauto 10]].
+      assert (holds (HM k off len cap (MVec o)) = Some k) as Hh by done.
+      pose proof (st_ok_sole_n _ _ _ _ _ _ L Hx Hh Hs Hc) as Hn.
+      sbind (realloc_buf_lwf G s h _ k st orc (cap + off) (len + off) (len + off + additional) L Hx Hh Hn Hs Hlv Hcl). { lia. } { lia. }
+      intros [k' vcap] s1 (Hfr & Hnc & Hkk & Hfrk & Hown & st' & Hs' & Hl' & Hsz' & Hcl' & Hct' & HK). apply spec_ret. split; [done|]. split; [|unfold is_hm; eauto 10].
+      cbn [fst]. rewrite Hc in Hct'.
+      assert (LWF (<[h := HM k' off len (vcap - off) (MVec o)]> G) (set_sts (<[k' := with_ctrl CNone st']>) s1)) as L1.
+      { apply HK; try done.
+        - exists (with_ctrl CNone st'). rewrite lookup_insert. simpl. rewrite Hl', Hcl', Hsz'. repeat split; try done; [apply heapish_of_size|lia|lia].
+        - unfold st_ok. simpl. rewrite Hcl', Hl'. destruct (vcap =? 0) eqn:Ev; [lia|]. repeat split; try done. lia. }
+      rewrite (with_ctrl_id st' CNone Hct') in L1. by rewrite (set_sts_id s1 k' st' Hs') in L1.
+  - destruct Hty as (st & Hs & Hlv & Hcl & (o & rc & Hc) & Hb & Hle).
+    destruct (usize_max <? len + additional) eqn:E0.
+    { destruct allocate; [apply spec_panic|]. apply spec_ret. split; [done|]. split; [by rewrite insert_id|unfold is_hm; eauto 10]. }
+    sbind (spec_get_st' _ _ _ Hs). intros y s1 [-> ->]. rewrite Hc.
+    destruct (rc =? 1) eqn:Erc.
+    + assert (rc = 1) as -> by lia. pose proof (refs_of_rc1 _ _ _ _ L Hs Hlv (or_intror (ex_intro _ _ (ex_intro _ _ Hc)))) as Hn.
+      destruct ((len + additional + off <=? usize_max) && (len + additional + off <=? s_size st)) eqn:E1.
+      { apply spec_ret. split; [done|]. split; [|unfold is_hm; eauto 10]. simpl. eapply lwf_hm_sole_window; try done; lia. }
+      destruct ((len + additional <=? s_size st) && (len <=? off)) eqn:E2.
+      { sbind (move_front_lwf G s k off len st L Hs Hlv Hcl). { lia. }
+        intros [] s1 (Hfr & L1 & st1 & Hs1 & Hsz). apply spec_ret. split; [done|]. split; [|unfold is_hm; eauto 10]. simpl.
+        eapply lwf_hm_sole_window; try done; lia. }
+      destruct allocate; cbn [negb]; [|apply spec_ret; split; [done|]; split; [by rewrite insert_id|unfold is_hm; eauto 10]].
+      destruct (usize_max <? len + additional + off) eqn:E3; [apply spec_panic|].
+      set (need := N.max (N.land (N.shiftl (s_size st) 1) usize_max) (len + additional + off)).
+      assert (len + additional + off <= need) as Hneed by (unfold need; lia).
+      assert (need <> 0) as Hnz by lia.
+      sbind (realloc_buf_lwf G s h _ k st orc (s_size st) (off + len) need L Hx eq_refl Hn Hs Hlv Hcl eq_refl Hnz).
+      intros [k' vcap] s1 (Hfr & Hnc & Hkk & Hfrk & Hown & st' & Hs' & Hl' & Hsz' & Hcl' & Hct' & HK).
+      eapply spec_bind with (Q1 := fun _ s2 => s2 = set_sts (<[k' := with_ctrl (CSharedV vcap o 1) st']>) s1).
+      { unfold upd_st. sbind (spec_get_st' _ _ _ Hs'). intros y s2 [-> ->]. apply spec_put_st'. }
+      intros [] s2 ->. apply spec_ret. split; [done|]. split; [|unfold is_hm; eauto 10]. cbn [fst].
+      destruct (vcap =? 0) eqn:Ev; [lia|].
+      apply HK; try done.
+      { exists (with_ctrl (CSharedV vcap o 1) st'). rewrite lookup_insert. simpl. rewrite Hl', Hcl', Hsz'.
+        split; [done|]. split; [done|]. split; [by left|]. split; [eauto|]. split; lia. }
+      { unfold st_ok. simpl. rewrite Hcl', Hl', Hsz'. repeat split; try done; lia. }
+      { intros h2 y k0 o0 c0 o1 cc1 Hne Hy W1 [= <- _ _].
+        assert (holds y = Some k') as Hhy. { destruct y as [| ? ? ? ? []|]; simpl in W1; try done. by injection W1 as -> _ _. }
+        destruct (typed_holds _ _ _ (lwf_typed _ _ L _ _ Hy) Hhy) as (sty & Hsy & _). congruence. }
+    + destruct allocate; cbn [negb]; [|apply spec_ret; split; [done|]; split; [by rewrite insert_id|unfold is_hm; eauto 10]].
+      set (ncap := N.max (len + additional) (ocr_from_repr o)).
+      sbind (mread_spec s k off len st Hs Hlv). { lia. } intros bs s1 ->.
+      assert (G !! fresh (dom G) = None) as Hfr by (apply not_elem_of_dom, is_fresh). set (t := fresh (dom G)) in *.
+      assert (t <> h) as Hne by (intros ->; congruence).
+      sbind (alloc_buf_lwf _ s ncap bs L). intros k' s1 Hpost. pose proof Hpost as (Hfr1 & st' & (Hn' & _) & Hs1 & _).
+      assert (LWF (<[t := HM k' 0 len ncap (MVec o)]> G) s1) as L1.
+      { eapply alloc_token; try done. intros st2 ? ? ? ? ?. eapply typed_fresh_hm; eauto. unfold ncap. lia. }
+      assert (k' <> k) as Hkk by (intros ->; congruence).
+      assert (sts s1 !! k = Some st) as Hs1k by (rewrite Hs1; by rewrite lookup_insert_ne).
+      sbind (drop_token_release _ s1 h (HM k off len cap MArc) k st L1). { by rewrite lookup_insert_ne. } { done. } { done. } { done. } { by rewrite Hc. }
+      intros [] s2 [Hfr2 L2]. apply spec_ret. split; [by eapply sframe_trans|]. split; [|unfold is_hm; eauto 10]. cbn [fst].
+      rewrite delete_insert_ne in L2 by done.
+      pose proof (lwf_rekey _ _ t h _ L2 (lookup_insert _ _ _)) as L3. rewrite lookup_insert_ne in L3 by done. rewrite lookup_delete in L3. specialize (L3 eq_refl).
+      rewrite delete_insert in L3 by (by rewrite lookup_delete_ne). by rewrite insert_delete_insert in L3.
+Qed.
+
+Lemma m_reserve_lwf G s h orc n k off len cap kd : LWF G s -> G !! h = Some (HM k off len cap kd) ->
+  spec (m_reserve orc n (HM k off len cap kd)) s (fun x' s1 => sframe s s1 /\ LWF (<[h := x']> G) s1 /\ is_hm x').
+Proof.
+  intros L Hx. unfold m_reserve. destruct (n <=? cap - len); [apply spec_ret; split; [done|]; split; [by rewrite insert_id|unfold is_hm; eauto 10]|].
+  sbind (reserve_inner_lwf G s h orc n true _ _ _ _ _ L Hx). intros [x' b] s1 (Hfr & L1 & Hm). by apply spec_ret.
+Qed.
+Lemma wf_after_put s s1 h x x' : hfresh s -> sframe s s1 -> hs s !! h = Some x -> LWF (<[h := x']> (hs s)) s1 -> WF (set_hs (<[h := x']>) s1).
+Proof.
+  intros Hf [Hh1 Hn1] Hx L1. eapply wf_put_h; [by eapply hfresh_frame|by rewrite Hh1|by rewrite Hh1].
+Qed.
+Lemma wf_OMReserve orc h n : wfstep orc (OMReserve h n).
+Proof.
+  intros s [L Hf] (k & ofs & len & cap & kd & Hx). simpl. sbind (spec_get_h' _ _ _ Hx). intros x s1 [-> ->].
+  sbind (m_reserve_lwf _ _ _ orc n _ _ _ _ _ L Hx). intros x' s1 (Hfr & L1 & _). sbind spec_put_h'. intros [] s2 ->. apply spec_ret. by eapply wf_after_put.
+Qed.
+Lemma wf_OMTryReclaim orc h n : wfstep orc (OMTryReclaim h n).
+Proof.
+  intros s [L Hf] (k & ofs & len & cap & kd & Hx). simpl. sbind (spec_get_h' _ _ _ Hx). intros x s1 [-> ->]. unfold m_try_reclaim.
+  eapply spec_bind with (Q1 := fun r s1 => sframe s s1 /\ LWF (<[h := r.1]> (hs s)) s1).
+  { destruct (n <=? cap - len); [apply spec_ret; split; [done|]; by rewrite insert_id|].
+    eapply spec_mono; [apply (reserve_inner_lwf _ s h orc n false _ _ _ _ _ L Hx)|]. intros r s1 (? & ? & _). done. }
+  intros [x' b] s1 [Hfr L1]. sbind spec_put_h'. intros [] s2 ->. apply spec_ret. by eapply wf_after_put.
+Qed.
+(* extend_from_slice: reserve, write into the spare capacity, the length grows *)
+Lemma m_extend_lwf G s h orc bs k off len cap kd : LWF G s -> G !! h = Some (HM k off len cap kd) ->
+  spec (m_extend orc bs (HM k off len cap kd)) s (fun x' s1 => sframe s s1 /\ LWF (<[h := x']> G) s1 /\ is_hm x').
+Proof.
+  intros L Hx. pose proof (typed_hm_le _ _ _ _ _ _ (lwf_typed _ _ L _ _ Hx)) as Hle. unfold m_extend.
+  eapply spec_bind with (Q1 := fun x1 s1 => (sframe s s1 /\ LWF (<[h := x1]> G) s1 /\ is_hm x1) /\ (h_len x1 = len /\ lenN bs <= h_cap x1 - h_len x1)).
+  { apply spec_and; [by apply m_reserve_lwf|]. intros e. pose proof (reserve_post orc (lenN bs) (HM k off len cap kd) s e) as Hp.
+    destruct (m_reserve orc (lenN bs) (HM k off len cap kd) s e) as [x1 s1 e1| |] eqn:E; try done; [|by (pose proof (m_reserve_lwf G s h orc (lenN bs) _ _ _ _ _ L Hx e) as HH; rewrite E in HH)].
+    by apply (Hp x1 s1 e1). }
+  intros x1 s1 [(Hfr & L1 & (k1 & o1 & l1 & c1 & kd1 & ->)) [Hl1 Hroom]]. simpl in Hl1, Hroom. subst l1.
+  pose proof (typed_hm_le _ _ _ _ _ _ (lwf_typed _ _ L1 h _ (lookup_insert _ _ _))) as Hle1.
+  sbind spec_check'. { lia. } intros [] s2 ->.
+  sbind (hm_write_lwf _ _ h _ _ _ _ _ (o1 + len) bs L1 (lookup_insert _ _ _)). { lia. } { lia. }
+  intros [] s2 [Hfr2 L2]. apply spec_ret. split; [by eapply sframe_trans|]. split; [|unfold is_hm; eauto 10].
+  rewrite <- (insert_insert G h (HM k1 o1 (len + lenN bs) c1 kd1) (HM k1 o1 len c1 kd1)). eapply lwf_hm_len; [exact L2|apply lookup_insert|lia].
+Qed.
+Lemma wf_OMExtend orc h d : wfstep orc (OMExtend h d).
+Proof.
+  intros s [L Hf] (k & ofs & len & cap & kd & Hx). simpl. sbind (spec_get_h' _ _ _ Hx). intros x s1 [-> ->].
+  sbind (m_extend_lwf _ _ _ orc d _ _ _ _ _ L Hx). intros x' s1 (Hfr & L1 & _). sbind spec_put_h'. intros [] s2 ->. apply spec_ret. by eapply wf_after_put.
+Qed.
+Lemma wf_OMResize orc h new_len v : wfstep orc (OMResize h new_len v).
+Proof.
+  intros s [L Hf] (k & ofs & len & cap & kd & Hx). simpl. sbind (spec_get_h' _ _ _ Hx). intros x s1 [-> ->]. cbn [m_parts]. sret.
+  pose proof (typed_hm_le _ _ _ _ _ _ (lwf_typed _ _ L _ _ Hx)) as Hle.
+  destruct (new_len <? len) eqn:E1.
+  { sbind spec_put_h'. intros [] s1 ->. apply spec_ret. eapply wf_put_h; [done|exact Hx|]. eapply lwf_hm_len; [done|exact Hx|lia]. }
+  destruct (new_len =? len) eqn:E2; [by apply spec_ret|].
+  eapply spec_bind with (Q1 := fun x1 s1 => (sframe s s1 /\ LWF (<[h := x1]> (hs s)) s1 /\ is_hm x1) /\ (h_len x1 = len /\ new_len - len <= h_cap x1 - h_len x1)).
+  { apply spec_and; [by apply m_reserve_lwf|]. intros e. pose proof (reserve_post orc (new_len - len) (HM k ofs len cap kd) s e) as Hp.
+    destruct (m_reserve orc (new_len - len) (HM k ofs len cap kd) s e) as [x1 s1 e1| |] eqn:E; try done; [|by (pose proof (m_reserve_lwf _ s h orc (new_len - len) _ _ _ _ _ L Hx e) as HH; rewrite E in HH)].
+    by apply (Hp x1 s1 e1). }
+  intros x1 s1 [(Hfr & L1 & (k1 & o1 & l1 & c1 & kd1 & ->)) [Hl1 Hroom]]. simpl in Hl1, Hroom. subst l1.
+  pose proof (typed_hm_le _ _ _ _ _ _ (lwf_typed _ _ L1 h _ (lookup_insert _ _ _))) as Hle1.
+  sbind spec_put_h'. intros [] s2 ->. cbn [m_parts]. sret.
+  sbind spec_check'. { lia. } intros [] s3 ->.
+  assert (lenN (repeat v (N.to_nat (new_len - len))) = new_len - len) as Hrep. { unfold lenN. rewrite repeat_length. lia. }
+  assert (LWF (<[h := HM k1 o1 len c1 kd1]> (hs s)) (set_hs (<[h := HM k1 o1 len c1 kd1]>) s1)) as L1' by (by apply lwf_set_hs).
+  sbind (hm_write_lwf _ _ h _ _ _ _ _ (o1 + len) (repeat v (N.to_nat (new_len - len))) L1' (lookup_insert _ _ _)). { lia. } { rewrite Hrep. lia. }
+  intros [] s3 [[Hh3 Hn3] L3]. sbind spec_put_h'. intros [] s4 ->. apply spec_ret.
+  destruct Hfr as [Hh1 Hn1]. split.
+  - apply lwf_set_hs. simpl. rewrite Hh3. simpl. rewrite Hh1. rewrite insert_insert.
+    rewrite <- (insert_insert (hs s) h (HM k1 o1 new_len c1 kd1) (HM k1 o1 len c1 kd1)). eapply lwf_hm_len; [exact L3|apply lookup_insert|lia].
+  - intros h' [y Hy]. simpl in *. rewrite Hh3 in Hy. simpl in Hy. rewrite Hh1 in Hy. rewrite Hn3. simpl. rewrite Hn1. rewrite insert_insert in Hy.
+    destruct (decide (h' = h)) as [->|?]; [apply Hf; eauto|]. rewrite lookup_insert_ne in Hy by done. apply Hf; eauto.
+Qed.
+
+(* ---- Extend<u8> from an iterator: reserve the hint, then one put_u8 per item, the handle stored back each time ---- *)
+Lemma extend_step_wf orc h b s : WF s -> is_m s h ->
+  spec (let! y := get_h h in let! y1 := m_extend orc [b] y in put_h h y1) s (fun _ s1 => WF s1 /\ is_m s1 h).
+Proof.
+  intros [L Hf] (k & ofs & len & cap & kd & Hx). sbind (spec_get_h' _ _ _ Hx). intros x s1 [-> ->].
+  sbind (m_extend_lwf _ _ _ orc [b] _ _ _ _ _ L Hx). intros x' s1 (Hfr & L1 & (k1 & o1 & l1 & c1 & kd1 & ->)). apply spec_put_h. split; [by eapply wf_after_put|].
+  exists k1, o1, l1, c1, kd1. simpl. apply lookup_insert.
+Qed.
+Lemma extend_loop_wf orc h d : forall (acc : M unit) s, spec acc s (fun _ s1 => WF s1 /\ is_m s1 h) ->
+  spec (fold_left (fun (acc : M unit) b => acc;; let! y := get_h h in let! y1 := m_extend orc [b] y in put_h h y1) d acc) s (fun _ s1 => WF s1 /\ is_m s1 h).
+Proof.
+  induction d as [|b d IH]; intros acc s Hacc; simpl; [done|]. apply IH. eapply spec_bind; [exact Hacc|]. intros [] s1 [W1 Hm1]. by apply extend_step_wf.
+Qed.
+Lemma wf_OMExtendIter orc h d hint : wfstep orc (OMExtendIter h d hint).
+Proof.
+  intros s [L Hf] (k & ofs & len & cap & kd & Hx). simpl. sbind (spec_get_h' _ _ _ Hx). intros x s1 [-> ->].
+  sbind (m_reserve_lwf _ _ _ orc hint _ _ _ _ _ L Hx). intros x' s1 (Hfr & L1 & (k1 & o1 & l1 & c1 & kd1 & ->)).
+  sbind spec_put_h'. intros [] s2 ->.
+  eapply spec_bind; [apply extend_loop_wf|intros [] s3 [W3 _]; by apply spec_ret].
+  apply spec_ret. split; [by eapply wf_after_put|]. exists k1, o1, l1, c1, kd1. simpl. apply lookup_insert.
+Qed.
+
+(* ---- unsplit ---- *)
+Lemma hm_read_spec G s h k o l c kd : LWF G s -> G !! h = Some (HM k o l c kd) -> spec (mread k o l) s (fun _ s1 => s1 = s).
+Proof.
+  intros L Hx. pose proof (lwf_typed _ _ L _ _ Hx) as Hty. destruct kd as [oc|]; simpl in Hty.
+  - destruct Hty as (st & Hs & Hl & _ & _ & Hb & Hle). eapply mread_spec; [exact Hs|done|lia].
+  - destruct Hty as (st & Hs & Hl & _ & _ & Hb & Hle). eapply mread_spec; [exact Hs|done|lia].
+Qed.
+Lemma wf_of_parts s sF : LWF (hs sF) sF -> next_h sF = next_h s -> (forall h', is_Some (hs sF !! h') -> is_Some (hs s !! h')) -> hfresh s -> WF sF.
+Proof. intros L Hn Hsub Hf. split; [done|]. intros h' Hh'. rewrite Hn. apply Hf. by apply Hsub. Qed.
+Lemma wf_OMUnsplit orc h other : wfstep orc (OMUnsplit h other).
+Proof.
+  intros s [L Hf] (Hne & (k & ofs & len & cap & kd & Hx) & (k2 & ofs2 & len2 & cap2 & kd2 & Hy)). simpl.
+  destruct (Pos.eqb h other) eqn:Eh; [apply Pos.eqb_eq in Eh; done|].
+  sbind (spec_get_h' _ _ _ Hx). intros x s1 [-> ->]. cbn [m_parts]. sret. sbind (spec_get_h' _ _ _ Hy). intros y s1 [-> ->]. cbn [m_parts]. sret.
+  destruct (len =? 0) eqn:E0.
+  { (* *self = other *)
+    sbind (m_drop_rep_lwf _ _ _ _ _ _ _ _ L Hx). intros [] s1 [[Hh1 Hn1] L1]. sbind spec_put_h'. intros [] s2 ->. sbind spec_del_h'. intros [] s3 ->. apply spec_ret.
+    apply (wf_of_parts s); simpl; try done.
+    - apply lwf_set_hs. apply lwf_set_hs. rewrite Hh1.
+      pose proof (lwf_rekey _ _ other h (HM k2 ofs2 len2 cap2 kd2) L1) as L2. rewrite lookup_delete_ne in L2 by done. specialize (L2 Hy (lookup_delete _ _)).
+      rewrite delete_insert_ne by done. rewrite <- (insert_delete_insert (delete other (hs s))). by rewrite delete_commute.
+    - rewrite Hh1. intros h' [z Hz]. apply lookup_delete_Some in Hz as [? Hz]. apply lookup_insert_Some in Hz as [[<- _]|[? Hz]]; eauto. }
+  destruct (cap2 =? 0) eqn:E1.
+  { sbind (m_drop_rep_lwf _ _ _ _ _ _ _ _ L Hy). intros [] s1 [[Hh1 Hn1] L1]. sbind spec_del_h'. intros [] s2 ->. apply spec_ret.
+    apply (wf_of_parts s); simpl; try done.
+    - apply lwf_set_hs. by rewrite Hh1.
+    - rewrite Hh1. intros h' [z Hz]. apply lookup_delete_Some in Hz as [? Hz]. eauto. }
+  (* the general path: copy other's bytes behind self *)
+  assert (spec (let! bs := mread k2 ofs2 len2 in let! x1 := m_extend orc bs (HM k ofs len cap kd) in put_h h x1;; m_drop_rep (HM k2 ofs2 len2 cap2 kd2);; del_h other;; mret RUnit) s (fun _ s1 => WF s1)) as Hcopy.
+  { sbind (hm_read_spec _ _ other _ _ _ _ _ L Hy). intros bs s1 ->.
+    sbind (m_extend_lwf _ _ _ orc bs _ _ _ _ _ L Hx). intros x1 s1 ([Hh1 Hn1] & L1 & _). sbind spec_put_h'. intros [] s2 ->.
+    assert (LWF (<[h := x1]> (hs s)) (set_hs (<[h := x1]>) s1)) as L1' by (by apply lwf_set_hs).
+    sbind (m_drop_rep_lwf _ _ other k2 ofs2 len2 cap2 kd2 L1'). { by rewrite lookup_insert_ne. } intros [] s3 [[Hh3 Hn3] L3]. sbind spec_del_h'. intros [] s4 ->. apply spec_ret.
+    apply (wf_of_parts s); simpl; try done.
+    - apply lwf_set_hs. rewrite Hh3. simpl. by rewrite Hh1.
+    - simpl in Hn3. congruence.
+    - rewrite Hh3. simpl. rewrite Hh1. intros h' [z Hz]. apply lookup_delete_Some in Hz as [? Hz]. apply lookup_insert_Some in Hz as [[<- _]|[? Hz]]; eauto. }
+  destruct kd as [o|]; [exact Hcopy|]. destruct kd2 as [o2|]; [exact Hcopy|].
+  destruct (Pos.eqb k k2 && (ofs + len =? ofs2)) eqn:Ec; [|exact Hcopy].
+  apply andb_true_iff in Ec as [Ek Eo]. apply Pos.eqb_eq in Ek. subst k2. assert (ofs2 = ofs + len) as -> by lia.
+  (* contiguous halves of one buffer: the windows merge in place *)
+  pose proof (lwf_typed _ _ L _ _ Hx) as (st & Hs & Hlv & Hcl & (oc & rc & Hc) & Hb & Hle).
+  pose proof (lwf_typed _ _ L _ _ Hy) as (st2 & Hs2 & _ & _ & _ & Hb2 & Hle2). rewrite Hs in Hs2. injection Hs2 as <-.
+  assert (cap = len) as ->.
+  { assert (cap = 0 \/ cap2 = 0 \/ ofs + cap <= ofs + len \/ ofs + len + cap2 <= ofs) as [?|[?|[?|?]]] by (eapply (lwf_disj _ _ L h other); eauto); lia. }
+  (* logically: self takes the union of the two windows while other keeps an empty window at its end; then other is dropped *)
+  set (merged := HM k ofs (len + len2) (len + cap2) MArc). set (oth' := HM k (ofs + len + cap2) 0 0 MArc).
+  assert (LWF (<[h := merged]> (<[other := oth']> (hs s))) s) as L1.
+  { pose proof (lwf_disj _ _ L) as D. eapply lwf_step0; [exact L| | |].
+    - intros h' z Hz. apply lookup_insert_Some in Hz as [[<- <-]|[? Hz]]; [|apply lookup_insert_Some in Hz as [[<- <-]|[? Hz]]; [|by eapply (lwf_typed _ _ L)]].
+      + exists st. repeat split; try done; [eauto|lia|lia].
+      + exists st. repeat split; try done; [eauto|lia].
+    - intros k0. rewrite (refs_insert_same _ h (HM k ofs len len MArc)) by (by rewrite ?lookup_insert_ne). by rewrite (refs_insert_same _ other (HM k (ofs + len) len2 cap2 MArc)).
+    - intros h1 h2 x1 x2 k0 o1 c1 o2' c2 Hn12 H1 H2 W1 W2.
+      apply lookup_insert_Some in H1 as [[<- <-]|[? H1]]; apply lookup_insert_Some in H2 as [[<- <-]|[? H2]]; try done.
+      + injection W1 as <- <- <-. apply lookup_insert_Some in H2 as [[<- <-]|[? H2]]; [injection W2 as <- <-; lia|].
+        assert (len = 0 \/ c2 = 0 \/ ofs + len <= o2' \/ o2' + c2 <= ofs) by (eapply (D h h2); eauto).
+        assert (cap2 = 0 \/ c2 = 0 \/ ofs + len + cap2 <= o2' \/ o2' + c2 <= ofs + len) by (eapply (D other h2); eauto). lia.
+      + injection W2 as <- <- <-. apply lookup_insert_Some in H1 as [[<- <-]|[? H1]]; [injection W1 as <- <-; lia|].
+        assert (c1 = 0 \/ len = 0 \/ o1 + c1 <= ofs \/ ofs + len <= o1) by (eapply (D h1 h); eauto).
+        assert (c1 = 0 \/ cap2 = 0 \/ o1 + c1 <= ofs + len \/ ofs + len + cap2 <= o1) by (eapply (D h1 other); eauto). lia.
+      + apply lookup_insert_Some in H1 as [[<- <-]|[? H1]]; apply lookup_insert_Some in H2 as [[<- <-]|[? H2]]; try done.
+        * injection W1 as <- <- <-. lia.
+        * injection W2 as <- <- <-. lia.
+        * eapply (D h1 h2); eauto. }
+  sbind spec_put_h'. intros [] s1 ->.
+  assert (LWF (<[h := merged]> (<[other := oth']> (hs s))) (set_hs (<[h := merged]>) s)) as L1' by (by apply lwf_set_hs).
+  change (m_drop_rep (HM k (ofs + len) len2 cap2 MArc)) with (m_drop_rep (HM k (ofs + len + cap2) 0 0 MArc)).
+  sbind (m_drop_rep_lwf _ _ other k (ofs + len + cap2) 0 0 MArc L1'). { rewrite lookup_insert_ne by done. apply lookup_insert. }
+  intros [] s2 [[Hh2 Hn2] L2]. sbind spec_del_h'. intros [] s3 ->. apply spec_ret.
+  apply (wf_of_parts s); simpl; try done.
+  - apply lwf_set_hs. rewrite Hh2. simpl. rewrite delete_insert_ne in L2 by done. rewrite delete_insert_delete in L2. by rewrite delete_insert_ne.
+  - rewrite Hh2. simpl. intros h' [z Hz]. apply lookup_delete_Some in Hz as [? Hz]. apply lookup_insert_Some in Hz as [[<- _]|[? Hz]]; eauto.
+Qed.
+
+(* the iterator extension is the one BytesMut operation that can panic after having made progress: the state at the panic is WF too *)
+Lemma specp_of_spec_cp {A} (m : M A) s Q (P : hst -> Prop) : spec m s Q -> cp m -> P s -> specp m s Q P.
+Proof. intros H1 H2 HP e. specialize (H1 e). specialize (H2 s e). destruct (m s e) as [| s1 e1 |]; try done. by destruct H2 as [-> _]. Qed.
+Lemma extend_step_wfp orc h b s : WF s -> is_m s h ->
+  specp (let! y := get_h h in let! y1 := m_extend orc [b] y in put_h h y1) s (fun _ s1 => WF s1 /\ is_m s1 h) WF.
+Proof.
+  intros W Hm. pose proof W as [L Hf]. pose proof Hm as (k & ofs & len & cap & kd & Hx).
+  eapply specp_bind; [apply specp_of_spec; [apply (spec_get_h' _ _ _ Hx)|apply np_get_h]|]. intros x s1 [-> ->].
+  eapply specp_bind; [apply specp_of_spec_cp; [apply (m_extend_lwf _ _ _ orc [b] _ _ _ _ _ L Hx)|apply cp_m_extend|exact W]|].
+  intros x' s1 (Hfr & L1 & (k1 & o1 & l1 & c1 & kd1 & ->)). apply specp_of_spec; [|apply np_put_h]. apply spec_put_h. split; [by eapply wf_after_put|].
+  exists k1, o1, l1, c1, kd1. simpl. apply lookup_insert.
+Qed.
+Lemma extend_loop_wfp orc h d : forall (acc : M unit) s, specp acc s (fun _ s1 => WF s1 /\ is_m s1 h) WF ->
+  specp (fold_left (fun (acc : M unit) b => acc;; let! y := get_h h in let! y1 := m_extend orc [b] y in put_h h y1) d acc) s (fun _ s1 => WF s1 /\ is_m s1 h) WF.
+Proof.
+  induction d as [|b d IH]; intros acc s Hacc; simpl; [done|]. apply IH. eapply specp_bind; [exact Hacc|]. intros [] s1 [W1 Hm1]. by apply extend_step_wfp.
+Qed.
+Lemma extend_iter_wfp orc h d hint s : WF s -> is_m s h -> specp (hstep orc (OMExtendIter h d hint)) s (fun _ s1 => WF s1) WF.
+Proof.
+  intros W (k & ofs & len & cap & kd & Hx). pose proof W as [L Hf]. cbn [hstep].
+  eapply specp_bind; [apply specp_of_spec; [apply (spec_get_h' _ _ _ Hx)|apply np_get_h]|]. intros x s1 [-> ->].
+  eapply specp_bind; [apply specp_of_spec_cp; [apply (m_reserve_lwf _ _ _ orc hint _ _ _ _ _ L Hx)|apply cp_m_reserve|exact W]|].
+  intros x' s1 (Hfr & L1 & (k1 & o1 & l1 & c1 & kd1 & ->)).
+  eapply specp_bind; [apply specp_of_spec; [apply spec_put_h'|apply np_put_h]|]. intros [] s2 ->.
+  eapply specp_bind; [apply extend_loop_wfp|intros [] s3 [W3 _]; apply specp_of_spec; [by apply spec_ret|apply np_ret]].
+  apply specp_of_spec; [|apply np_ret]. apply spec_ret. split; [by eapply wf_after_put|]. exists k1, o1, l1, c1, kd1. simpl. apply lookup_insert.
 Qed.
